@@ -15,7 +15,7 @@ RULE = ("every [ molecules ] list of <=3 entries over 4 molecule types (single- 
         "(residue number, residue name, atom name, in order; count line), all coordinates finite, box line = requested box / "
         "box of the input structure when one is given / cubic box with L^3 * density = total mass * 1.660541 (5 decimals). "
         "distinct_nontrivial = distinct (system, options) with >=2 molecule types or a partial input")
-ASSUMPTIONS = ["masses: every atom 72.0 (topology atoms table); direction bundle = 6 axis vectors"]
+ASSUMPTIONS = ["masses: 72.0 per atom, or (mass_mode mixed) explicit 72 / explicit 0 / no mass column with an atom-type mass of 36; direction bundle = 6 axis vectors"]
 BUDGET = {"quick": 500, "thorough": 3000}
 
 TYPES = ["W", "CH3", "DI3", "BR4"]
@@ -49,16 +49,19 @@ def cases(tier):
         opts = [dict(boxsrc="box", inp=None, res=None, grid=True)]
         if len(mols) <= 2:
             opts += [dict(boxsrc="dens500", inp=None, res=None, grid=False),
+                     dict(boxsrc="dens500", inp=None, res=None, grid=False, mass_mode="mixed"),
+                     dict(boxsrc="dens1000", inp=None, res=None, grid=True, mass_mode="mixed"),
                      dict(boxsrc="dens1000", inp=None, res=None, grid=True),
                      dict(boxsrc="box", inp="c-complete", res=None, grid=True),
                      dict(boxsrc="box", inp="c-prefix", res=None, grid=True),
                      dict(boxsrc="none", inp="mc-prefix", res=None, grid=True),
                      dict(boxsrc="otherbox", inp="c-prefix", res="S", grid=True)]
         else:
-            opts += [dict(boxsrc="dens1000", inp="c-prefix", res=None, grid=True)]
+            opts += [dict(boxsrc="dens1000", inp="c-prefix", res=None, grid=True),
+                     dict(boxsrc="dens500", inp=None, res=None, grid=True, mass_mode="mixed")]
         for o in opts:
             if o["boxsrc"].startswith("dens"):
-                L = (natoms(mols) * 72.0 * 1.6605410 / float(o["boxsrc"][4:])) ** (1 / 3.0)
+                L = (G.total_mass(dict(molecules=mols, mass_mode=o.get("mass_mode"))) * 1.6605410 / float(o["boxsrc"][4:])) ** (1 / 3.0)
                 if L < 0.7:
                     continue     # box smaller than twice the cut-off even for 0.15 nm residues
             yield dict(mols=mols, tier=tier, idx=i, **o)
@@ -68,7 +71,7 @@ def cases(tier):
 def materialise(cfg):
     mols = [tuple(m) for m in cfg["mols"]]
     types = sorted({n for n, _ in mols})
-    sysd = dict(types=types, molecules=mols, kwargs=dict(nrewind=2, maxiter=5))
+    sysd = dict(types=types, molecules=mols, kwargs=dict(nrewind=2, maxiter=5), mass_mode=cfg.get("mass_mode"))
     box = [4.0, 4.5, 5.0]
     if cfg["boxsrc"] in ("box", "otherbox"):
         sysd["box"] = box if cfg["boxsrc"] == "box" else [5.0, 5.0, 5.0]
@@ -108,8 +111,7 @@ def materialise(cfg):
     elif "box" in sysd:
         exp_box = tuple(sysd["box"])
     else:
-        natoms = len(G.expand_atoms(sysd))
-        L = round((natoms * 72.0 * 1.6605410 / sysd["density"]) ** (1 / 3.0), 5)
+        L = round((G.total_mass(sysd) * 1.6605410 / sysd["density"]) ** (1 / 3.0), 5)
         exp_box = (L, L, L)
     return sysd, exp_box
 
@@ -121,7 +123,7 @@ def run_exec(sysd, chooser):
 def judge(cfg, sysd, exp_box, res, choices):
     viols = []
     case1 = dict(cfg, choices=choices)
-    info = f" | mols={cfg['mols']} opts={ {k: cfg[k] for k in ('boxsrc', 'inp', 'res', 'grid')} } choices={choices}"
+    info = f" | mols={cfg['mols']} opts={ {k: cfg.get(k) for k in ('boxsrc', 'inp', 'res', 'grid', 'mass_mode')} } choices={choices}"
 
     def bad(assertion, msg, tags=()):
         if len(viols) < 10:
@@ -181,7 +183,7 @@ def run_case(cfg):
             viols += v
         traces.add(hash(repr(res["events"])))
     if len({n for n, _ in cfg["mols"]}) >= 2 or cfg["inp"] in ("c-prefix", "mc-prefix"):
-        keys.add(json.dumps({k: cfg[k] for k in ("mols", "boxsrc", "inp", "res", "grid")}, sort_keys=True))
+        keys.add(json.dumps({k: cfg.get(k) for k in ("mols", "boxsrc", "inp", "res", "grid", "mass_mode")}, sort_keys=True))
     stats["states"] = len(traces)
     stats["transitions"] = ntrans
     return dict(evals=evals, keys=sorted(keys), violations=viols, stats=stats,
